@@ -338,7 +338,9 @@ void MDSDRV_Data::add_ins_psg(uint16_t id, const Tag& tag)
 	}
 	else
 	{
-		// loop command
+		// loop command (the loop position is a single byte)
+		if(loop_pos > 255)
+			throw InputError(nullptr, stringf("error: psg envelope @%d has its loop mark behind more than 255 envelope bytes", id).c_str());
 		env_data.push_back(0x02);
 		env_data.push_back(loop_pos);
 	}
